@@ -13,7 +13,10 @@ mod tree;
 mod c01;
 mod c04;
 mod c05;
+mod c10;
 mod c14;
+mod c17;
+mod c17_flavours;
 mod c15;
 mod pushio;
 
@@ -44,7 +47,7 @@ pub struct Prop {
 }
 
 fn props() -> Vec<Prop> {
-    vec![c01::PROP, c01::PROP2, c01::PROP3, c04::PROP, c05::PROP, c14::PROP, c15::PROP]
+    vec![c01::PROP, c01::PROP2, c01::PROP3, c04::PROP, c05::PROP, c10::PROP, c14::PROP, c17::PROP, c15::PROP]
 }
 
 /// observation used when the implementation panicked
